@@ -59,13 +59,26 @@ type tyInfo struct {
 // structs) the library itself stores in them.  Other implementors a caller might supply are outside the model.
 var ifaceSums = map[string][]string{
 	"PacketStatusChunk": {"RunLengthChunk", "StatusVectorChunk"},
+	// the packet types the datagram decoder creates (CompoundPacket, itself a []Packet, is not a member: lists handed to
+	// rtcp.Marshal that contain compound packets are outside the translated fragment)
+	"Packet": {"SenderReport", "ReceiverReport", "SourceDescription", "Goodbye", "ApplicationDefined", "TransportLayerNack",
+		"RapidResynchronizationRequest", "TransportLayerCC", "CCFeedbackReport", "PictureLossIndication", "SliceLossIndication",
+		"ReceiverEstimatedMaximumBitrate", "FullIntraRequest", "ExtendedReport", "RawPacket"},
 }
+
+// opaqueTypes: types whose methods are outside the fragment (float32 arithmetic, reflection). Their values and methods
+// are taken from Lib/GoOpaque.v, which instantiates them with the hand-written model; the translated callers
+// (datagram decoder, list encoder, compound packet) are then about "this Go text, with these two types as modelled".
+var opaqueTypes = map[string]bool{"ExtendedReport": true, "ReceiverEstimatedMaximumBitrate": true}
 
 // fuelHints: iteration bounds for loops whose condition alone does not bound them, by function and condition text.
 // Each is validated by the equivalence proof (the translated function never returns Fuel).
 var fuelHints = map[string]string{
 	// every iteration returns or advances packetStatusPos by 2, and packetStatusPos+2 <= totalLength <= 65532
 	"TransportLayerCC.Unmarshal|processedPacketNum < t.PacketStatusCount": "(Z.to_nat 32800)",
+	// every iteration returns or consumes at least the four octets of a header
+	"Unmarshal|len(rawData) != 0":                "(S (Z.to_nat (glen $rawData)))",
+	"CompoundPacket.Unmarshal|len(rawData) != 0": "(S (Z.to_nat (glen $rawData)))",
 }
 
 func classify(t types.Type) tyInfo {
@@ -229,6 +242,13 @@ func (t *translator) needStruct(name string) *structInfo {
 	if s, ok := t.structs[name]; ok {
 		return s
 	}
+	if opaqueTypes[name] {
+		s := &structInfo{name: name}
+		t.structs[name] = s
+		t.order = append(t.order, "opaque:"+name)
+		t.registerOpaque(name)
+		return s
+	}
 	obj := t.l.pkg.Scope().Lookup(name)
 	if obj == nil {
 		t.fail(nil, "unknown struct %s", name)
@@ -272,6 +292,43 @@ func (t *translator) needStruct(name string) *structInfo {
 	return s
 }
 
+func namedName(ty types.Type) string {
+	if p, ok := ty.Underlying().(*types.Pointer); ok {
+		ty = p.Elem()
+	}
+	if p, ok := ty.(*types.Pointer); ok {
+		ty = p.Elem()
+	}
+	if n, ok := ty.(*types.Named); ok {
+		return n.Obj().Name()
+	}
+	return ""
+}
+
+// memberTy: the rendering of a member type of a sum (a struct record, an opaque type, or e.g. bytes for RawPacket)
+func (t *translator) memberTy(m string) tyInfo {
+	if opaqueTypes[m] {
+		return tyInfo{k: kStruct, name: m}
+	}
+	obj := t.l.pkg.Scope().Lookup(m)
+	if obj == nil {
+		t.fail(nil, "unknown member type %s", m)
+	}
+	return classify(obj.Type())
+}
+
+func (t *translator) registerOpaque(name string) {
+	if _, done := t.sigs[name+".Marshal"]; done {
+		return
+	}
+	bytesTy := tyInfo{k: kBytes}
+	zl := tyInfo{k: kSint}
+	t.sigs[name+".Marshal"] = &fnSig{key: name + ".Marshal", coq: "GoOpaque." + name + "_Marshal", hasRecv: true, recvTy: name, recvCoq: name, hasErr: true, nres: 1, resTy: []tyInfo{bytesTy}}
+	t.sigs[name+".Unmarshal"] = &fnSig{key: name + ".Unmarshal", coq: "GoOpaque." + name + "_Unmarshal", hasRecv: true, ptrRecv: true, recvTy: name, recvCoq: name, hasErr: true}
+	t.sigs[name+".MarshalSize"] = &fnSig{key: name + ".MarshalSize", coq: "GoOpaque." + name + "_MarshalSize", hasRecv: true, recvTy: name, recvCoq: name, pure: true, nres: 1, resTy: []tyInfo{zl}}
+	t.sigs[name+".DestinationSSRC"] = &fnSig{key: name + ".DestinationSSRC", coq: "GoOpaque." + name + "_DestinationSSRC", hasRecv: true, recvTy: name, recvCoq: name, pure: true, nres: 1, resTy: []tyInfo{{k: kList, elem: &zl}}}
+}
+
 func (t *translator) needIface(name string) {
 	for _, o := range t.order {
 		if o == "iface:"+name {
@@ -279,7 +336,9 @@ func (t *translator) needIface(name string) {
 		}
 	}
 	for _, m := range ifaceSums[name] {
-		t.needStruct(m)
+		if mt := t.memberTy(m); mt.k == kStruct {
+			t.needStruct(m)
+		}
 	}
 	t.order = append(t.order, "iface:"+name)
 }
@@ -317,6 +376,9 @@ func (t *translator) zero(ti tyInfo) string {
 		return ti.name + "_nil"
 	case kStruct:
 		s := t.needStruct(ti.name)
+		if opaqueTypes[ti.name] {
+			return "zero_" + ti.name
+		}
 		parts := []string{"mk" + s.name}
 		for _, f := range s.fields {
 			parts = append(parts, t.zero(f.ty))
@@ -332,9 +394,14 @@ func (t *translator) emitStructs(b *bytes.Buffer) {
 			in := strings.TrimPrefix(name, "iface:")
 			fmt.Fprintf(b, "(* interface %s as the closed sum of the concrete types the library stores in it *)\nInductive %s :=", in, in)
 			for _, m := range ifaceSums[in] {
-				fmt.Fprintf(b, "\n  | %s_%s (x : %s)", in, m, m)
+				fmt.Fprintf(b, "\n  | %s_%s (x : %s)", in, m, coqTy(t.memberTy(m)))
 			}
 			fmt.Fprintf(b, "\n  | %s_nil.\n\n", in)
+			continue
+		}
+		if strings.HasPrefix(name, "opaque:") {
+			on := strings.TrimPrefix(name, "opaque:")
+			fmt.Fprintf(b, "(* %s: outside the translated fragment; values and methods are those of Lib/GoOpaque.v *)\nDefinition %s := GoOpaque.%s.\nDefinition zero_%s : %s := GoOpaque.zero_%s.\n\n", on, on, on, on, on, on)
 			continue
 		}
 		s := t.structs[name]
@@ -391,6 +458,7 @@ type ctx struct {
 	direct  bool   // inside a direct-style (nested) loop: a return is `Ok (inr v)`
 	loops   []loopInfo
 	aliases map[types.Object]alias // an interface or pointer variable that refers to another local's struct
+	dyn     map[types.Object]bool  // error variables declared with `var`: a bool "is non-nil" at run time
 }
 
 type alias struct {
@@ -593,9 +661,7 @@ func (c *ctx) callee(call *ast.CallExpr) (*fnSig, ast.Expr) {
 			rt := classify(c.t.l.info.TypeOf(f.X))
 			name := rt.name
 			if name == "" {
-				if n, ok := c.t.l.info.TypeOf(f.X).(*types.Named); ok {
-					name = n.Obj().Name()
-				}
+				name = namedName(c.t.l.info.TypeOf(f.X))
 			}
 			key := name + "." + f.Sel.Name
 			if s, ok := c.t.sigs[key]; ok {
@@ -610,28 +676,42 @@ func (c *ctx) callee(call *ast.CallExpr) (*fnSig, ast.Expr) {
 	return nil, nil
 }
 
-// ifaceDispatch emits `I_M (x : I) args := match x with I_A a => A_M a args | ... | I_nil => Panic end`
+// ifaceDispatch emits `I_M (x : I) args : res .. := match x with I_A a => A_M a args | ... | I_nil => Panic end`.
+// A method with a pointer receiver that writes it (Unmarshal) returns the updated sum value.
 func (t *translator) ifaceDispatch(n ast.Node, iface, method string) *fnSig {
-	var first *fnSig
 	t.needIface(iface)
-	var arms strings.Builder
+	var first *fnSig
+	type armT struct {
+		m  string
+		sg *fnSig
+	}
+	var arms []armT
 	for _, m := range ifaceSums[iface] {
 		sg, ok := t.sigs[m+"."+method]
 		if !ok {
-			t.fail(n, "call of %s.%s through %s: the method of %s is not (yet) translated", iface, method, iface, m)
-		}
-		if sg.ptrRecv {
-			t.fail(n, "call of %s.%s through the interface updates its receiver", m, method)
+			t.fail(n, "call of %s through %s: %s.%s is not (yet) translated", method, iface, m, method)
 		}
 		if first == nil {
 			first = sg
-		} else if first.hasErr != sg.hasErr || first.nres != sg.nres || first.pure != sg.pure {
+		} else if first.hasErr != sg.hasErr || first.nres != sg.nres || first.ptrRecv != sg.ptrRecv {
 			t.fail(n, "methods %s of the members of %s have different shapes", method, iface)
 		}
-		fmt.Fprintf(&arms, "  | %s_%s a => %s a%s\n", iface, m, sg.coq, "%ARGS%")
+		if sg.ptrRecv && sg.nres != 0 {
+			t.fail(n, "%s.%s updates its receiver and returns values", m, method)
+		}
+		arms = append(arms, armT{m, sg})
 	}
-	fd := t.decls[ifaceSums[iface][0]+"."+method]
 	var ps, as []string
+	var fd *ast.FuncDecl
+	for _, m := range ifaceSums[iface] {
+		if d, ok := t.decls[m+"."+method]; ok {
+			fd = d
+			break
+		}
+	}
+	if fd == nil {
+		t.fail(n, "no declaration of %s among the members of %s", method, iface)
+	}
 	for _, p := range fd.Type.Params.List {
 		ti := classify(t.l.info.TypeOf(p.Type))
 		for i := range p.Names {
@@ -644,22 +724,30 @@ func (t *translator) ifaceDispatch(n ast.Node, iface, method string) *fnSig {
 	if len(as) > 0 {
 		argstr = " " + strings.Join(as, " ")
 	}
+	var body strings.Builder
+	for _, a := range arms {
+		call := fmt.Sprintf("%s a%s", a.sg.coq, argstr)
+		switch {
+		case a.sg.ptrRecv:
+			call = fmt.Sprintf("res_map %s_%s (%s)", iface, a.m, call)
+		case a.sg.pure:
+			call = "Ok (" + call + ")"
+		}
+		fmt.Fprintf(&body, "  | %s_%s a => %s\n", iface, a.m, call)
+	}
 	sig := *first
 	sig.key = iface + "." + method
 	sig.coq = iface + "_" + method
 	sig.recvTy = iface
 	sig.recvCoq = iface
-	nilArm := "Panic"
-	if sig.pure {
-		t.fail(n, "pure method through an interface (a nil value would panic)")
+	sig.pure = false
+	sig.hasRecv = true
+	pstr := ""
+	if len(ps) > 0 {
+		pstr = " " + strings.Join(ps, " ")
 	}
-	fmt.Fprintf(&t.body, "(* dynamic dispatch of %s.%s over the members of the sum *)\nDefinition %s (x : %s)%s :=\n  match x with\n%s  | %s_nil => %s\n  end.\n\n",
-		iface, method, sig.coq, iface, func() string {
-			if len(ps) == 0 {
-				return ""
-			}
-			return " " + strings.Join(ps, " ")
-		}(), strings.ReplaceAll(arms.String(), "%ARGS%", argstr), iface, nilArm)
+	fmt.Fprintf(&t.body, "(* dynamic dispatch of %s.%s over the members of the sum (a nil interface value panics) *)\nDefinition %s (x : %s)%s :=\n  match x with\n%s  | %s_nil => Panic\n  end.\n\n",
+		iface, method, sig.coq, iface, pstr, body.String(), iface)
 	t.sigs[sig.key] = &sig
 	return &sig
 }
@@ -678,23 +766,28 @@ func (c *ctx) args(call *ast.CallExpr, recv ast.Expr) string {
 // exprAs: e used where a value of type [to] is expected (injects a concrete struct into an interface sum)
 func (c *ctx) exprAs(e ast.Expr, to tyInfo) string {
 	if to.k == kIface {
+		if id, isId := e.(*ast.Ident); isId && id.Name == "nil" {
+			c.t.needIface(to.name)
+			return to.name + "_nil"
+		}
 		from := c.typeOf(e)
-		if from.k == kStruct {
+		if from.k != kIface {
+			fn := namedName(c.t.l.info.TypeOf(e))
 			ok := false
 			for _, m := range ifaceSums[to.name] {
-				if m == from.name {
+				if m == fn {
 					ok = true
 				}
 			}
 			if !ok {
-				c.t.fail(e, "%s stored in %s (not one of the concrete types of the sum)", from.name, to.name)
+				c.t.fail(e, "%s stored in %s (not one of the concrete types of the sum)", fn, to.name)
 			}
 			c.t.needIface(to.name)
-			return fmt.Sprintf("(%s_%s %s)", to.name, from.name, c.expr(e))
+			return fmt.Sprintf("(%s_%s %s)", to.name, fn, c.expr(e))
 		}
-		if id, isId := e.(*ast.Ident); isId && id.Name == "nil" {
-			return to.name + "_nil"
-		}
+	}
+	if id, isId := e.(*ast.Ident); isId && id.Name == "nil" && (to.k == kList || to.k == kBytes || to.k == kString) {
+		return "[]"
 	}
 	return c.expr(e)
 }
@@ -771,6 +864,17 @@ func (c *ctx) expr(e ast.Expr) string {
 		i := c.expr(x.Index)
 		return c.bind(fmt.Sprintf("gidx %s %s", b, i))
 	case *ast.SliceExpr:
+		if c.typeOf(x.X).k == kList && !x.Slice3 {
+			l := c.expr(x.X)
+			lo, hi := "0", fmt.Sprintf("(glenl %s)", l)
+			if x.Low != nil {
+				lo = c.expr(x.Low)
+			}
+			if x.High != nil {
+				hi = c.expr(x.High)
+			}
+			return c.bind(fmt.Sprintf("gslicel %s %s %s", l, lo, hi))
+		}
 		if k := c.typeOf(x.X).k; x.Slice3 || (k != kBytes && k != kString) {
 			c.t.fail(x, "slice expression outside the fragment")
 		}
@@ -900,6 +1004,17 @@ func (c *ctx) binary(x *ast.BinaryExpr) string {
 		return c.bind(fmt.Sprintf("(if %s then Ok true else (%s))", a, inner))
 	}
 	lt := c.typeOf(x.X)
+	if lt.k == kError && (op == token.EQL || op == token.NEQ) {
+		if id, ok := x.X.(*ast.Ident); ok && c.dyn[c.objOf(id)] {
+			if y, ok := x.Y.(*ast.Ident); ok && y.Name == "nil" {
+				if op == token.NEQ {
+					return c.vars[c.objOf(id)]
+				}
+				return fmt.Sprintf("(negb %s)", c.vars[c.objOf(id)])
+			}
+		}
+		c.t.fail(x, "comparison of error values")
+	}
 	a := c.expr(x.X)
 	b := c.expr(x.Y)
 	switch op {
@@ -945,6 +1060,17 @@ func (c *ctx) binary(x *ast.BinaryExpr) string {
 		return fmt.Sprintf("(gshr %s %s)", a, b)
 	case token.EQL, token.NEQ:
 		var eq string
+		if lt.k == kError {
+			if id, ok := x.X.(*ast.Ident); ok && c.dyn[c.objOf(id)] {
+				if y, ok := x.Y.(*ast.Ident); ok && y.Name == "nil" {
+					if op == token.NEQ {
+						return c.vars[c.objOf(id)]
+					}
+					return fmt.Sprintf("(negb %s)", c.vars[c.objOf(id)])
+				}
+			}
+			c.t.fail(x, "comparison of error values")
+		}
 		switch lt.k {
 		case kUint, kSint:
 			eq = fmt.Sprintf("(%s =? %s)", a, b)
@@ -1000,6 +1126,10 @@ func (c *ctx) call(x *ast.CallExpr) string {
 			if from.k == kBytes || from.k == kString {
 				return a
 			}
+		case kList:
+			if from.k == kList {
+				return a
+			}
 		}
 		c.t.fail(x, "conversion to %s", tv.Type)
 	}
@@ -1024,6 +1154,11 @@ func (c *ctx) call(x *ast.CallExpr) string {
 						}
 					}
 					return fmt.Sprintf("(glen %s)", c.expr(x.Args[0]))
+				}
+			case "new":
+				nt := classify(info.TypeOf(x.Args[0]))
+				if nt.k == kStruct || nt.k == kBytes || nt.k == kList {
+					return c.t.zero(nt)
 				}
 			case "make":
 				if classify(info.TypeOf(x.Args[0])).k == kBytes && len(x.Args) == 2 {
@@ -1169,7 +1304,7 @@ func (c *ctx) assignTo(lhs ast.Expr, term string, cont kont) string {
 			return wrap(c.take(), cont(c), c.depth)
 		}
 		o := c.objOf(l)
-		if classify(o.Type()).k == kError {
+		if classify(o.Type()).k == kError && !c.dyn[o] {
 			c.t.fail(lhs, "assignment of an error value that is not a call result")
 		}
 		if a, isAlias := c.aliases[o]; isAlias && a.ctor == "" {
@@ -1355,6 +1490,11 @@ func (c *ctx) assign(s *ast.AssignStmt, cont kont) string {
 	if s.Tok != token.ASSIGN && s.Tok != token.DEFINE {
 		c.t.fail(s, "assignment operator %s", s.Tok)
 	}
+	if len(s.Rhs) == 1 && len(s.Lhs) == 2 {
+		if ta, ok := s.Rhs[0].(*ast.TypeAssertExpr); ok && ta.Type != nil {
+			return c.commaOk(s, ta, cont)
+		}
+	}
 	if len(s.Rhs) == 1 {
 		if call, ok := s.Rhs[0].(*ast.CallExpr); ok {
 			if sig, recv := c.calleeOrNil(call); sig != nil && (sig.hasErr || sig.ptrRecv) {
@@ -1406,6 +1546,18 @@ func (c *ctx) assign(s *ast.AssignStmt, cont kont) string {
 					return wrap(c.take(), cont(c), c.depth)
 				}
 			}
+		}
+		if lid, ok := s.Lhs[0].(*ast.Ident); ok && lid.Name != "_" && c.dyn[c.objOf(lid)] {
+			if isNil, known := c.isErrValue(s.Rhs[0]); known {
+				if isNil {
+					return c.assignTo(s.Lhs[0], "false", cont)
+				}
+				return c.assignTo(s.Lhs[0], "true", cont)
+			}
+			if rid, ok := s.Rhs[0].(*ast.Ident); ok && c.dyn[c.objOf(rid)] {
+				return c.assignTo(s.Lhs[0], c.vars[c.objOf(rid)], cont)
+			}
+			c.t.fail(s, "assignment to an error variable from a value of unknown origin")
 		}
 		// x = p where p is a local *T: x refers to p's struct from now on (an interface holding the pointer, or a copy of it)
 		if lid, ok := s.Lhs[0].(*ast.Ident); ok && lid.Name != "_" {
@@ -1500,6 +1652,9 @@ func (c *ctx) errTest(e ast.Expr) (known bool, isNonNil bool) {
 		}
 	}
 	if id == nil || classify(c.t.l.info.TypeOf(id)).k != kError {
+		return false, false
+	}
+	if c.dyn[c.objOf(id)] {
 		return false, false
 	}
 	st, ok := c.errs[c.objOf(id)]
@@ -1712,6 +1867,14 @@ func (c *ctx) ret(s *ast.ReturnStmt) string {
 			c.t.fail(s, "return without values")
 		}
 		last := res[len(res)-1]
+		if lid, isId := last.(*ast.Ident); isId && c.dyn[c.objOf(lid)] {
+			var vals []string
+			for i, e := range res[:len(res)-1] {
+				vals = append(vals, c.exprAs(e, c.sig.resTy[i]))
+			}
+			binds := c.take()
+			return wrap(binds, ind(c.depth)+fmt.Sprintf("if %s then Err else %s\n", c.vars[c.objOf(lid)], c.okWrap(c.result(vals))), c.depth)
+		}
 		isNil, ok := c.isErrValue(last)
 		if !ok {
 			c.t.fail(last, "returned error value of unknown origin")
@@ -1722,8 +1885,12 @@ func (c *ctx) ret(s *ast.ReturnStmt) string {
 		res = res[:len(res)-1]
 	}
 	var vals []string
-	for _, e := range res {
-		vals = append(vals, c.expr(e))
+	for i, e := range res {
+		if i < len(c.sig.resTy) {
+			vals = append(vals, c.exprAs(e, c.sig.resTy[i]))
+		} else {
+			vals = append(vals, c.expr(e))
+		}
 	}
 	return c.finish(vals)
 }
@@ -1769,6 +1936,8 @@ func (c *ctx) stmts(list []ast.Stmt, k kont) string {
 		return c.switchStmt(x, cont)
 	case *ast.AssignStmt:
 		return c.assign(x, cont)
+	case *ast.TypeSwitchStmt:
+		return c.typeSwitch(x, cont)
 	case *ast.ForStmt:
 		return c.forStmt(x, cont)
 	case *ast.RangeStmt:
@@ -1818,8 +1987,9 @@ func (c *ctx) stmts(list []ast.Stmt, k kont) string {
 			o := d.objOf(vs.Names[0])
 			ti := classify(o.Type())
 			if ti.k == kError {
-				d.errs[o] = 1
-				return chain(i+1, d)
+				// its value may depend on the path taken through loops: a boolean "is non-nil"
+				d.dyn[o] = true
+				return d.setVar(o, vs.Names[0].Name, "false", func(d2 *ctx) string { return chain(i+1, d2) })
 			}
 			if ti.k == kOther {
 				d.t.fail(vs, "variable %s of a type outside the fragment", vs.Names[0].Name)
@@ -1884,6 +2054,140 @@ func (c *ctx) stmts(list []ast.Stmt, k kont) string {
 	return ""
 }
 
+// ---- interface values: type switches and comma-ok assertions are matches on the sum ----
+
+func (c *ctx) memberOf(e ast.Expr, iface string) string {
+	n := namedName(c.t.l.info.TypeOf(e))
+	for _, m := range ifaceSums[iface] {
+		if m == n {
+			return m
+		}
+	}
+	return ""
+}
+
+func (c *ctx) typeSwitch(s *ast.TypeSwitchStmt, cont kont) string {
+	body := func(c *ctx) string {
+		var subject ast.Expr
+		var bindName *ast.Ident
+		switch a := s.Assign.(type) {
+		case *ast.ExprStmt:
+			subject = a.X.(*ast.TypeAssertExpr).X
+		case *ast.AssignStmt:
+			subject = a.Rhs[0].(*ast.TypeAssertExpr).X
+			bindName = a.Lhs[0].(*ast.Ident)
+		}
+		st := c.typeOf(subject)
+		if st.k != kIface {
+			c.t.fail(s, "type switch on something that is not one of the interface sums")
+		}
+		v := c.expr(subject)
+		binds := c.take()
+		var def *ast.CaseClause
+		var sb strings.Builder
+		sb.WriteString(ind(c.depth) + fmt.Sprintf("match %s with\n", v))
+		seen := map[string]bool{}
+		for _, stt := range s.Body.List {
+			cc := stt.(*ast.CaseClause)
+			if cc.List == nil {
+				def = cc
+				continue
+			}
+			for _, te := range cc.List {
+				m := c.memberOf(te, st.name)
+				isNil := false
+				if id, ok := te.(*ast.Ident); ok && id.Name == "nil" {
+					isNil = true
+				}
+				if m == "" && !isNil {
+					// a type outside the sum never matches a value of the sum
+					continue
+				}
+				d := c.clone()
+				d.depth = c.depth + 1
+				pat := st.name + "_nil"
+				if !isNil {
+					pat = fmt.Sprintf("%s_%s a_sw", st.name, m)
+					seen[m] = true
+				}
+				sb.WriteString(ind(c.depth) + "| " + pat + " =>\n")
+				if bindName != nil && bindName.Name != "_" {
+					if o := c.t.l.info.Implicits[cc]; o != nil {
+						if len(cc.List) == 1 && !isNil {
+							nm := d.fresh(bindName.Name)
+							d.vars[o] = nm
+							sb.WriteString(ind(d.depth) + fmt.Sprintf("let %s := a_sw in\n", nm))
+						} else {
+							// several types in the clause: the variable keeps the interface type
+							nm := d.fresh(bindName.Name)
+							d.vars[o] = nm
+							sb.WriteString(ind(d.depth) + fmt.Sprintf("let %s := %s in\n", nm, v))
+						}
+					}
+				}
+				sb.WriteString(d.block(cc.Body, cont))
+			}
+		}
+		d := c.clone()
+		d.depth = c.depth + 1
+		sb.WriteString(ind(c.depth) + "| _ =>\n")
+		if def != nil {
+			if bindName != nil && bindName.Name != "_" {
+				if o := c.t.l.info.Implicits[def]; o != nil {
+					nm := d.fresh(bindName.Name)
+					d.vars[o] = nm
+					sb.WriteString(ind(d.depth) + fmt.Sprintf("let %s := %s in\n", nm, v))
+				}
+			}
+			sb.WriteString(d.block(def.Body, cont))
+		} else {
+			sb.WriteString(cont(d))
+		}
+		sb.WriteString(ind(c.depth) + "end\n")
+		return wrap(binds, sb.String(), c.depth)
+	}
+	if s.Init != nil {
+		return c.stmts([]ast.Stmt{s.Init}, body)
+	}
+	return body(c)
+}
+
+// v, ok := x.(*T)
+func (c *ctx) commaOk(s *ast.AssignStmt, ta *ast.TypeAssertExpr, cont kont) string {
+	st := c.typeOf(ta.X)
+	if st.k != kIface {
+		c.t.fail(s, "type assertion on something that is not one of the interface sums")
+	}
+	m := c.memberOf(ta.Type, st.name)
+	v := c.expr(ta.X)
+	binds := c.take()
+	mt := tyInfo{}
+	if m != "" {
+		mt = c.t.memberTy(m)
+	} else {
+		mt = classify(c.t.l.info.TypeOf(ta.Type))
+	}
+	branch := func(d *ctx, val, okv string) string {
+		return d.assignTo(s.Lhs[0], val, func(d2 *ctx) string { return d2.assignTo(s.Lhs[1], okv, cont) })
+	}
+	var sb strings.Builder
+	if m == "" {
+		d := c.clone()
+		return wrap(binds, branch(d, c.t.zero(mt), "false"), c.depth)
+	}
+	sb.WriteString(ind(c.depth) + fmt.Sprintf("match %s with\n", v))
+	sb.WriteString(ind(c.depth) + fmt.Sprintf("| %s_%s a_ta =>\n", st.name, m))
+	d1 := c.clone()
+	d1.depth = c.depth + 1
+	sb.WriteString(branch(d1, "a_ta", "true"))
+	sb.WriteString(ind(c.depth) + "| _ =>\n")
+	d2 := c.clone()
+	d2.depth = c.depth + 1
+	sb.WriteString(branch(d2, c.t.zero(mt), "false"))
+	sb.WriteString(ind(c.depth) + "end\n")
+	return wrap(binds, sb.String(), c.depth)
+}
+
 // ---- loops (lambda-lifted: one top-level Fixpoint per loop, one Definition for what follows it) ----
 
 type scopeVar struct {
@@ -1908,6 +2212,10 @@ func (c *ctx) scopeVars() []scopeVar {
 		switch ti.k {
 		case kUint, kSint, kBool, kBytes, kStruct, kList, kString, kIface, kMap:
 			out = append(out, scopeVar{o, n, coqTy(ti)})
+		case kError:
+			if c.dyn[o] {
+				out = append(out, scopeVar{o, n, "bool"})
+			}
 		}
 	}
 	sort.Slice(out, func(i, j int) bool { return out[i].name < out[j].name })
@@ -2103,6 +2411,19 @@ func (c *ctx) forStmtDirect(s *ast.ForStmt, cont kont) string {
 	return c.afterDirect(fmt.Sprintf("%s %s%s", loop, fuel, c.actuals(vs)), vs, cont)
 }
 
+// substHint: `$x` in a fuel hint is the current value of the Go variable x
+func (c *ctx) substHint(h string) string {
+	for o, n := range c.vars {
+		if strings.Contains(h, "$"+o.Name()) && n != "view" && n != "alias" && n != "poisoned" {
+			h = strings.ReplaceAll(h, "$"+o.Name(), n)
+		}
+	}
+	if strings.Contains(h, "$") {
+		c.t.fail(nil, "fuel hint mentions a variable that is not in scope: %s", h)
+	}
+	return h
+}
+
 func (c *ctx) forStmt(s *ast.ForStmt, cont kont) string {
 	if len(c.loops) > 0 {
 		if s.Init != nil {
@@ -2146,7 +2467,7 @@ func (c *ctx) forStmt(s *ast.ForStmt, cont kont) string {
 			loop, params(vs), c.resTy, code))
 		var fuel string
 		if h, ok := fuelHints[c.sig.key+"|"+types.ExprString(s.Cond)]; ok {
-			fuel = h
+			fuel = c.substHint(h)
 		} else {
 			fuel = c.fuelFor(s.Cond)
 		}
@@ -2158,13 +2479,50 @@ func (c *ctx) forStmt(s *ast.ForStmt, cont kont) string {
 	return body(c)
 }
 
+func (c *ctx) rangeStmtDirect(s *ast.RangeStmt, cont kont) string {
+	xt := c.typeOf(s.X)
+	if xt.ptr {
+		if vid, ok := s.Value.(*ast.Ident); ok && vid.Name != "_" && c.t.bodyMutates(s.Body, c.objOf(vid)) {
+			c.t.fail(s, "nested range loop that writes through its loop variable")
+		}
+	}
+	xs := c.expr(s.X)
+	n := c.t.nextLift()
+	vs := c.scopeVars()
+	loop := fmt.Sprintf("%s_loop%d", c.sig.coq, n)
+	lc := c.clone()
+	lc.depth = 2
+	lc.direct = true
+	self := func(d *ctx) string { return ind(d.depth) + loop + " rest' (idx + 1)" + d.actuals(vs) + "\n" }
+	lc.loops = append(append([]loopInfo(nil), c.loops...), loopInfo{
+		onContinue: self,
+		onBreak:    func(d *ctx) string { return ind(d.depth) + d.exitTuple(vs) + "\n" },
+	})
+	var sb strings.Builder
+	if id, ok := s.Key.(*ast.Ident); ok && id.Name != "_" {
+		name := lc.fresh(id.Name)
+		lc.vars[lc.objOf(id)] = name
+		sb.WriteString(ind(2) + fmt.Sprintf("let %s := idx in\n", name))
+	}
+	if id, ok := s.Value.(*ast.Ident); ok && id.Name != "_" {
+		name := lc.fresh(id.Name)
+		lc.vars[lc.objOf(id)] = name
+		sb.WriteString(ind(2) + fmt.Sprintf("let %s := x in\n", name))
+	}
+	exit := func() string { d := c.clone(); return d.exitTuple(vs) }()
+	sb.WriteString(lc.stmts(s.Body.List, self))
+	c.t.lifted = append(c.t.lifted, fmt.Sprintf("Fixpoint %s (rest : %s) (idx : Z)%s {struct rest} : %s :=\n  match rest with\n  | [] => %s\n  | x :: rest' =>\n%s  end.\n\n",
+		loop, coqTy(xt), params(vs), c.directResultTy(vs), exit, sb.String()))
+	return c.afterDirect(fmt.Sprintf("%s %s 0%s", loop, xs, c.actuals(vs)), vs, cont)
+}
+
 func (c *ctx) rangeStmt(s *ast.RangeStmt, cont kont) string {
 	xt := c.typeOf(s.X)
 	if xt.k != kList || (s.Tok != token.DEFINE && (s.Key != nil || s.Value != nil)) {
 		c.t.fail(s, "range over something that is not a list of the fragment")
 	}
 	if len(c.loops) > 0 {
-		c.t.fail(s, "range loop nested in another loop")
+		return c.rangeStmtDirect(s, cont)
 	}
 	xs := c.expr(s.X)
 	pre := c.take()
@@ -2425,7 +2783,7 @@ func (t *translator) translate(key string) {
 		t.lifted = nil
 		t.liftN = 0
 		c := &ctx{t: t, fd: fd, sig: sig, vars: map[types.Object]string{}, errs: map[types.Object]int{}, owned: map[types.Object]bool{},
-			views: map[types.Object]view{}, poison: map[types.Object]bool{}, counter: map[string]int{}, depth: 1, aliases: map[types.Object]alias{}}
+			views: map[types.Object]view{}, poison: map[types.Object]bool{}, counter: map[string]int{}, depth: 1, aliases: map[types.Object]alias{}, dyn: map[types.Object]bool{}}
 		var params []string
 		if sig.hasRecv {
 			f := fd.Recv.List[0]
@@ -2580,14 +2938,27 @@ func (t *translator) emitCodecs(b *bytes.Buffer) {
 			in := strings.TrimPrefix(name, "iface:")
 			fmt.Fprintf(b, "Definition show_%s (x : %s) : sval :=\n  match x with\n", in, in)
 			for _, m := range ifaceSums[in] {
-				fmt.Fprintf(b, "  | %s_%s a => SL (SY %s :: show_%s a)\n", in, m, coqString(m), m)
+				if mt := t.memberTy(m); mt.k == kStruct {
+					fmt.Fprintf(b, "  | %s_%s a => SL (SY %s :: show_%s a)\n", in, m, coqString(m), m)
+				} else {
+					fmt.Fprintf(b, "  | %s_%s a => SL [SY %s; %s]\n", in, m, coqString(m), t.showField(mt, "a"))
+				}
 			}
 			fmt.Fprintf(b, "  | %s_nil => SY \"nil\"\n  end.\n", in)
 			fmt.Fprintf(b, "Definition read_%s (v : sval) : option %s :=\n  match v with\n  | SL (SY n :: l) =>\n", in, in)
 			for _, m := range ifaceSums[in] {
-				fmt.Fprintf(b, "      if String.eqb n %s then (let? a := read_%s l in Some (%s_%s a)) else\n", coqString(m), m, in, m)
+				if mt := t.memberTy(m); mt.k == kStruct {
+					fmt.Fprintf(b, "      if String.eqb n %s then (let? a := read_%s l in Some (%s_%s a)) else\n", coqString(m), m, in, m)
+				} else {
+					fmt.Fprintf(b, "      if String.eqb n %s then (match l with [v1] => let? a := %s v1 in Some (%s_%s a) | _ => None end) else\n", coqString(m), t.readField(mt), in, m)
+				}
 			}
 			b.WriteString("      None\n  | _ => None\n  end.\n\n")
+			continue
+		}
+		if strings.HasPrefix(name, "opaque:") {
+			on := strings.TrimPrefix(name, "opaque:")
+			fmt.Fprintf(b, "Definition show_%s (x : %s) : list sval := GoOpaque.show_%s x.\nDefinition read_%s (l : list sval) : option %s := GoOpaque.read_%s l.\n\n", on, on, on, on, on, on)
 			continue
 		}
 		s := t.structs[name]
@@ -2678,6 +3049,49 @@ func (t *translator) emitCodecs(b *bytes.Buffer) {
 		}
 		b.WriteString("  None.\n")
 	}
+	// the datagram decoder and the list encoder of packet.go, when they are inside the fragment
+	b.WriteString("Definition src_dgram (b : bytes) : option sval :=\n")
+	if sig, ok := t.sigs["Unmarshal"]; ok && !sig.pure && sig.hasErr && sig.nres == 1 {
+		b.WriteString("  Some (sres (fun ps => SL (map show_Packet ps)) (Unmarshal b)).\n")
+	} else {
+		b.WriteString("  None.\n")
+	}
+	b.WriteString("Definition src_encs (l : list sval) : option sval :=\n")
+	if sig, ok := t.sigs["Marshal"]; ok && !sig.pure && sig.hasErr && sig.nres == 1 {
+		b.WriteString("  let? ps := omap read_Packet l in Some (sres SB (Marshal ps)).\n")
+	} else {
+		b.WriteString("  None.\n")
+	}
+	// CompoundPacket: validate / cname / marshal / size / dest of a list of packets
+	b.WriteString("Definition src_compound (l : list sval) : option (list (string * sval)) :=\n")
+	need := []string{"CompoundPacket.Validate", "CompoundPacket.CNAME", "CompoundPacket.Marshal", "CompoundPacket.MarshalSize", "CompoundPacket.DestinationSSRC"}
+	all := true
+	for _, k := range need {
+		if _, ok := t.sigs[k]; !ok {
+			all = false
+		}
+	}
+	if all {
+		b.WriteString("  let? ps := omap read_Packet l in\n  Some [(\"validate\"%string, sres (fun _ => SY \"unit\") (CompoundPacket_Validate ps));\n        (\"cname\"%string, sres SB (CompoundPacket_CNAME ps));\n        (\"marshal\"%string, sres SB (CompoundPacket_Marshal ps));\n")
+		if t.sigs["CompoundPacket.MarshalSize"].pure {
+			b.WriteString("        (\"size\"%string, zn (CompoundPacket_MarshalSize ps));\n")
+		} else {
+			b.WriteString("        (\"size\"%string, sres zn (CompoundPacket_MarshalSize ps));\n")
+		}
+		if t.sigs["CompoundPacket.DestinationSSRC"].pure {
+			b.WriteString("        (\"dest\"%string, SL (map zn (CompoundPacket_DestinationSSRC ps)))].\n")
+		} else {
+			b.WriteString("        (\"dest\"%string, sres (fun d => SL (map zn d)) (CompoundPacket_DestinationSSRC ps))].\n")
+		}
+	} else {
+		b.WriteString("  None.\n")
+	}
+	b.WriteString("Definition src_compound_unmarshal (b : bytes) : option sval :=\n")
+	if _, ok := t.sigs["CompoundPacket.Unmarshal"]; ok {
+		b.WriteString("  Some (sres (fun ps => SL (map show_Packet ps)) (CompoundPacket_Unmarshal [] b)).\n")
+	} else {
+		b.WriteString("  None.\n")
+	}
 	// NackPairsFromSequenceNumbers, when it is inside the fragment
 	b.WriteString("Definition src_nackpairs (l : list Z) : option sval :=\n")
 	if sig, ok := t.sigs["NackPairsFromSequenceNumbers"]; ok && !sig.pure {
@@ -2698,7 +3112,7 @@ func genFuncs(l *loaded, want []string) []byte {
 	var b bytes.Buffer
 	b.WriteString(hdr)
 	b.WriteString("(* Functions of the package rendered as Gallina by srcgen/trans.go (see Lib/GoSem.v for the semantics of the\n   primitives).  Equivalence with the hand-written model is proved in Proofs/SourceEquiv.v. *)\n")
-	b.WriteString("From Coq Require Import List ZArith Bool String.\nFrom RTCP Require Import Lib.Base Lib.Sval Lib.GoSem.\nImport ListNotations.\nLocal Open Scope Z_scope.\n\nModule GoSrc.\n\n")
+	b.WriteString("From Coq Require Import List ZArith Bool String.\nFrom RTCP Require Import Lib.Base Lib.Sval Lib.GoSem Check.GoOpaque.\nImport ListNotations.\nLocal Open Scope Z_scope.\n\nModule GoSrc.\n\n")
 	t.emitStructs(&b)
 	b.Write(t.body.Bytes())
 	t.emitCodecs(&b)
